@@ -22,7 +22,7 @@ import (
 
 // one more crash point than any delete of the universe has state-store units (observed maximum: 4);
 // reaching the last point means a delete has more units than modelled -> the check reports itself broken
-const c17MaxCrashUnits = 5
+var c17MaxCrashUnits = mc.Pick(5, 8) // thorough: files with discovery records have up to 6 units
 
 type c17Op struct {
 	name, kind, file, chunk string
